@@ -821,6 +821,19 @@ def history_diff(h, rep):
 
 
 # --------------------------------------------------------------------------
+def run_bitlength(ctx, CNF):
+    """number of bits of a binary mapping = exact ceil(log2 m) (the code goes through floating point)"""
+    ms = sorted({m for k in range(0, 13 if ctx.tier == 'quick' else 16) for m in (2 ** k - 1, 2 ** k, 2 ** k + 1) if m >= 1} | set(range(1, 70)))
+    replies = ctx.model.batch([cmd('bitlength', m) for m in ms])
+    for m, rep in zip(ms, replies):
+        F = CNF()
+        f = F.new_binary_mapping(1, m)
+        ctx.count('bitlength', m, True, sample=dict(m=m))
+        if f.bits() != rep or len(f) != rep:
+            viol_cex(ctx, 'a binary mapping into %d values uses %d bits, not ceil(log2 m) = %d' % (m, f.bits(), rep),
+                     dict(n=1, m=m), dict(bits=f.bits(), size=len(f)), 'group-binmap', 'bitlength')
+
+
 def fixed_cases(ctx, F_classes):
     """the two inputs of DESIGN D2 / D3 and the doctest shapes, always run"""
     hs = [
@@ -841,6 +854,7 @@ def run(ctx):
     F_classes = [('CNF', CNF), ('OPB', OPB)]
     quick = ctx.tier == 'quick'
     run_groups(ctx, F_classes, 2400 if quick else 24000)
+    run_bitlength(ctx, CNF)
     run_histories(ctx, F_classes, 0, given=[h for h in fixed_cases(ctx, F_classes) for _ in (0, 1)])
     run_histories(ctx, F_classes, 3000 if quick else 30000)
     ctx.exhaustive = False
